@@ -119,3 +119,47 @@ def replay(res, pid, path):
         res.violation("impl:" + kind, "replay: " + text, witness=open(path).read())
     res.cov["evaluations"] += 1; res.cov["distinct_nontrivial"] += 2
     res.add_samples([m.group(0)])
+
+
+def run_lockstep(res, pid, seed, tier):
+    """schedule-lockstep tie (S): the real allocator runs mode `lock` of s_conc.c under the deterministic scheduler and logs
+    every atomic access to page->xthread_free, page->xheap and heap->thread_delayed_free (abstract old -> new value); the
+    extracted Coq model Model/TFree.v must be able to take the same step of the same thread with the same values, and its
+    boolean invariant inv_b is evaluated on the synchronised states (ocaml mode tfree-lockstep)."""
+    exe = build(res)
+    if exe is None:
+        return None
+    okb, txt = vlib.ocaml_build()
+    if not okb:
+        res.violation("model-build", "extracted model does not build: " + txt[-1200:]); return None
+    big = tier == "thorough"
+    jobs = [(seed * 1000 + i, 2 + i % 3, (150 if big else 80) if i % 2 else 40) for i in range(60 if big else 16)]
+    stats = collections.Counter(); first_mismatch = None
+    def one(j):
+        sd, nt, nops = j
+        rc, out = run_one(exe, "lock", sd, nt, nops, log=True, timeout=180)
+        logtxt = "\n".join(l for l in out.splitlines() if not l.startswith("END") and not l.startswith("V "))
+        rc2, mout = vlib.model_replay("tfree-lockstep", logtxt + "\n", timeout=600)
+        return j, out, mout
+    with concurrent.futures.ThreadPoolExecutor(max_workers=int(vlib.JOBS)) as ex:
+        for j, out, mout in ex.map(one, jobs):
+            stats["lockstep_logs"] += 1
+            m = re.search(r'STAT tfree-lockstep lines=(\d+) atomic_steps=(\d+) inv_b_checks=(\d+)', mout)
+            if m:
+                stats["lockstep_atomic_steps"] += int(m.group(2)); stats["lockstep_inv_b_checks"] += int(m.group(3))
+            mm = [l for l in mout.splitlines() if l.startswith("MISMATCH")]
+            d = re.search(r'DONE (\d+) (\d+)', mout)
+            if mm or not d or int(d.group(2)) != 0:
+                stats["lockstep_mismatching_logs"] += 1
+                if first_mismatch is None:
+                    first_mismatch = (j, mm[0] if mm else mout[-300:])
+    if first_mismatch:
+        (sd, nt, nops), text = first_mismatch
+        # a model/implementation disagreement on the decomposition into atomic steps; is there also a failing input?
+        res.violation("corr:tfree-lockstep", "the interleaving model cannot follow the real allocator's atomic steps (schedule: build/s_conc lock %d %d %d log): %s"
+                      % (sd, nt, nops, text[:400]), witness=None, replay_name="%s_lockstep_%d.sched" % (pid, sd))
+    d = res.cov.setdefault("input_distribution", {})
+    d["lockstep"] = dict(stats)
+    res.cov["traces_validated_against_impl"] += stats["lockstep_logs"]
+    res.cov["evaluations"] += stats["lockstep_atomic_steps"]
+    return stats
